@@ -925,8 +925,12 @@ def call_ext(it, dotted, args, kwargs):
                     return ExtRef('builtins.' + nm)
             if isinstance(v, StrT):
                 return ExtRef('builtins.str')
+            if isinstance(v, Rat) and not v.is_const():
+                # a symbolic number stands for a numpy scalar (what this library's arithmetic mostly produces): fast paths reserved
+                # for plain Python numbers are not taken, the general code is what gets analysed
+                return ExtRef('numpy.float64' if v.is_real() else 'numpy.complex128')
             if isinstance(v, (Rat, float, Fr)):
-                return ExtRef('builtins.float' if to_rat(v).is_real() else 'builtins.complex')     # symbolic numbers stand for floats
+                return ExtRef('builtins.float' if to_rat(v).is_real() else 'builtins.complex')
             if isinstance(v, PolyT):
                 return ExtRef('numpy.poly1d')
             if isinstance(v, Arr):
